@@ -109,6 +109,10 @@ def run(chk):
                 # the struct all the same and must pass through without touching any typed field
                 pool = [b"X-Unknown", b"Zeta", b"Another-Field", b"X-B", b"Epoch", b"Revision", b"Native", b"Relations", b"ABI", b"OS", b"CPU",
                         b"Possibilities", b"Algorithm", b"Hash", b"Filename"]
+                # ... and like fields that OTHER struct types of the program know (and may have omitted a moment ago): to this
+                # struct they are unknown fields like any other
+                own = {f[1].encode() for f in fields}
+                pool += sorted({f[1].encode() for tn, fs in PROBES.items() if tn != tname for f in fs} - own - set(pool))
                 keys = rng.sample(pool, rng.randrange(0, 4))
                 for k in keys:
                     found.append((k, rng.choice([b"v1", b"some value", b"1.0", b"3", b"yes"])))
